@@ -9,6 +9,6 @@ CONSTANTS Keys = {1, 2, 3}
           TName = "IntIntMap"
 VIEW View
 ACTION_CONSTRAINT DumpT
-INVARIANTS SetOK RefuseOK KeysBagExact ValuesBagExact EntriesBagExact WireRoundTrip
+INVARIANTS SetOK RefuseOK KeysBagExact ValuesBagExact EntriesBagExact WireRoundTrip NilIsAValue
 PROPERTIES Frame PutStores RefusalInert AddSums AddIfExistNeverCreates RemoveExact ClearEmpties PutAllIsPuts ReadOnlyKeeps SizeLaw
 CHECK_DEADLOCK FALSE
